@@ -23,6 +23,9 @@ struct monotonic_allocator {
 
     [[nodiscard]] auto allocate(etl::size_t n) -> T*
     {
+        if (n > static_cast<etl::size_t>(-1) / sizeof(T)) {
+            return nullptr;
+        }
         if (etl::align(alignof(T), sizeof(T) * n, _ptr, _sz) != nullptr) {
             auto* result = reinterpret_cast<T*>(_ptr);
             _ptr         = reinterpret_cast<char*>(_ptr) + sizeof(T) * n;
